@@ -280,8 +280,16 @@ func c37(c *Ctx) {
 			c.Reject(dm+"skipName", Union(RetOK(), Indexing("$0")), cur+" >= len($0)")
 			c.NeverAfter(dm+"skipName", c.Edge(cur+"+"+L+" >= len($0)"), Union(RetOK(), Indexing("$0")), true)
 			c.Guard(dm+"skipName", c.Edge(cur+"+"+L+" >= len($0)"), "("+L+"&192) == 0", L+" != 0")
-			c.NeverAfter(dm+"skipName", c.EdgeWhere("("+L+"&192) != 192", "("+L+"&192) != 0"), RetOK(), true)
-			c.Count(dm+"skipName", c.EdgeWhere("("+L+"&192) != 192", "("+L+"&192) != 0"), 1, 1)
+			// reserved prefixes 0x40/0x80: in the iteration whose label byte has a prefix that is neither the
+			// literal one (0x00) nor the pointer one (0xC0), skipName never succeeds, then or in a later
+			// iteration. Decided over paths from the loop header, so the nesting and order of the prefix
+			// tests (switch, if/else-if chain) do not matter; both prefix values must be tested somewhere.
+			c.D5RejectPerIteration(dm+"skipName", RetOK(), "("+L+"&192) != 0", "("+L+"&192) != 192")
+			// (literal vs pointer: the Guard above keeps the length test, i.e. the use of the byte as a label
+			// length, under prefix == 0x00.)
+			// a literal label crossing the end of the message is refused (as in Name.unpack): stated over the
+			// values, so it fails - rather than having nothing to examine - when the length test disappears.
+			c.D5RejectPerIteration(dm+"skipName", RetOK(), "("+L+"&192) == 0", L+" != 0", cur+"+"+L+" >= len($0)")
 		}
 	}
 	// Parser.skipResource fast path
